@@ -581,6 +581,8 @@ impl Node {
             self.metric_manager.on_ncmd(handle, message_metrics).await;
             if rebirth {
                 let now = SystemTime::now().duration_since(UNIX_EPOCH).unwrap();
+                #[cfg(feature = "verif-hooks")]
+                let now = srad_types::utils::verif_hooks::mock_wall().unwrap_or(now);
                 let time_since_last = now - self.last_node_rebirth_request;
                 if time_since_last < self.config.node_rebirth_request_cooldown {
                     info!(
